@@ -290,3 +290,93 @@ Proof.
     + symmetry; apply Z.mod_small; lia.
     + apply (Z.mod_unique_pos _ _ 1); lia.
 Qed.
+
+(* ---------- matches ---------- *)
+Lemma const_auto_spec en v : wf_expr (mk_const_auto v) = true /\ denote en (mk_const_auto v) = v.
+Proof.
+  unfold mk_const_auto. split; [simpl; apply const_shape_wf|].
+  simpl. apply norm_id; [apply const_shape_wf|apply const_shape_fits].
+Qed.
+
+Lemma mk_match1_spec en e p : wf_expr e = true -> env_ok en e -> Z.of_nat (length p) = ewidth e ->
+  wf_expr (mk_match1 e p) = true /\ env_ok en (mk_match1 e p) /\ ewidth (mk_match1 e p) = 1 /\
+  denote en (mk_match1 e p) = b2z (pat_sem p (denote en e mod 2 ^ ewidth e)).
+Proof.
+  intros Hwf Henv Hlen. destruct (shape_sound en e Hwf Henv) as [Hw _]. pose proof (wf_width_nonneg _ Hw) as Hwn.
+  destruct (const_auto_spec en (pat_mask p)) as [Hm1 Hm2]. destruct (const_auto_spec en (pat_value p)) as [Hv1 Hv2].
+  unfold mk_match1. split; [|split; [|split]].
+  - simpl. rewrite Hwf. simpl. unfold mk_const_auto in *. simpl in *. rewrite Hm1, Hv1. reflexivity.
+  - simpl. tauto.
+  - reflexivity.
+  - cbn [denote den_op2]. rewrite Hm2, Hv2.
+    rewrite <- (pat_match_sem p (denote en e mod 2 ^ ewidth e))
+      by (rewrite Hlen; apply Z.mod_pos_bound, pow2_pos; auto).
+    unfold pat_match. pose proof (pat_mask_range p) as Hr. rewrite Hlen in Hr.
+    rewrite (Z.land_comm (denote en e)). rewrite (land_mask_low (pat_mask p) (denote en e) (ewidth e)) by auto.
+    rewrite Z.eqb_sym. reflexivity.
+Qed.
+
+Lemma cat_one_bits_zero en (l : list expr) : Forall (fun t => ewidth t = 1) l ->
+  (cat_of (map (fun p => (denote en p, ewidth p)) l) =? 0) = forallb (fun t => denote en t mod 2 =? 0) l.
+Proof.
+  induction l as [|t l IH]; intros HF; [reflexivity|].
+  pose proof (Forall_inv HF) as H0; pose proof (Forall_inv_tail HF) as HF'. cbv beta in H0.
+  simpl map. cbn [cat_of forallb]. rewrite H0. change (2 ^ 1) with 2.
+  assert (Hnn : 0 <= cat_of (map (fun p => (denote en p, ewidth p)) l)).
+  { apply cat_of_nonneg. apply Forall_forall. intros [v w] Hin. apply in_map_iff in Hin.
+    destruct Hin as (p & Heq & Hp). injection Heq as _ <-. simpl. rewrite Forall_forall in HF'. rewrite (HF' p Hp). lia. }
+  rewrite <- IH by auto. pose proof (Z.mod_pos_bound (denote en t) 2 ltac:(lia)).
+  destruct (denote en t mod 2 =? 0) eqn:E1; destruct (cat_of (map (fun p => (denote en p, ewidth p)) l) =? 0) eqn:E2; lia.
+Qed.
+
+(* e.matches(p1, ..., pn) on normalised patterns = "some pattern matches e's bit pattern" *)
+Theorem mk_matches_spec en e ps : wf_expr e = true -> env_ok en e ->
+  Forall (fun p => Z.of_nat (length p) = ewidth e) ps ->
+  wf_expr (mk_matches e ps) = true /\
+  denote en (mk_matches e ps) = b2z (existsb (fun p => pat_sem p (denote en e mod 2 ^ ewidth e)) ps).
+Proof.
+  intros Hwf Henv HF. unfold mk_matches. destruct ps as [|p [|q r]].
+  - split; reflexivity.
+  - destruct (mk_match1_spec en e p Hwf Henv (Forall_inv HF)) as (H1 & _ & _ & H4).
+    split; [exact H1|]. rewrite H4. simpl. rewrite orb_false_r. reflexivity.
+  - set (l := p :: q :: r) in *. clearbody l.
+    assert (Hall : forall x, In x l -> wf_expr (mk_match1 e x) = true /\ env_ok en (mk_match1 e x) /\
+                      ewidth (mk_match1 e x) = 1 /\
+                      denote en (mk_match1 e x) = b2z (pat_sem x (denote en e mod 2 ^ ewidth e))).
+    { intros x Hx. apply mk_match1_spec; auto. rewrite Forall_forall in HF; auto. }
+    split.
+    + assert (Hf : forallb wf_expr (map (mk_match1 e) l) = true).
+      { apply forallb_forall. intros y Hy. apply in_map_iff in Hy. destruct Hy as (x & <- & Hx). apply Hall; auto. }
+      cbn [wf_expr]. rewrite Hf. reflexivity.
+    + cbn [denote den_op1]. rewrite cat_one_bits_zero.
+      * f_equal.
+        assert (Hx : forall l', (forall x, In x l' -> denote en (mk_match1 e x) = b2z (pat_sem x (denote en e mod 2 ^ ewidth e))) ->
+                  negb (forallb (fun t => denote en t mod 2 =? 0) (map (mk_match1 e) l')) =
+                  existsb (fun p => pat_sem p (denote en e mod 2 ^ ewidth e)) l').
+        { induction l' as [|x l' IHl]; intros Hd; [reflexivity|].
+          cbn [map forallb existsb]. rewrite (Hd x (or_introl eq_refl)).
+          rewrite negb_andb, IHl by (intros y Hy; apply Hd; right; auto).
+          destruct (pat_sem x (denote en e mod 2 ^ ewidth e)); reflexivity. }
+        apply Hx. intros x Hx'. apply Hall; auto.
+      * apply Forall_forall. intros y Hy. apply in_map_iff in Hy. destruct Hy as (x & <- & Hx). apply Hall; auto.
+Qed.
+
+(* ---------- replicate ---------- *)
+Theorem mk_replicate_spec en e count i : wf_expr e = true -> env_ok en e -> 0 < ewidth e ->
+  0 <= i < Z.of_nat count * ewidth e ->
+  wf_expr (mk_replicate e count) = true /\
+  Z.testbit (denote en (mk_replicate e count)) i = Z.testbit (denote en e) (i mod ewidth e).
+Proof.
+  intros Hwf Henv Hw Hi. unfold mk_replicate. split.
+  - simpl. apply forallb_forall. intros x Hx. apply repeat_spec in Hx. subst; auto.
+  - cbn [denote]. revert i Hi. induction count as [|c IH]; intros i Hi; [lia|].
+    simpl repeat. simpl map.
+    assert (Hnn : 0 <= cat_of (map (fun p => (denote en p, ewidth p)) (repeat e c))).
+    { apply cat_of_nonneg. apply Forall_forall. intros [v w] Hin. apply in_map_iff in Hin.
+      destruct Hin as (p & Heq & Hp). injection Heq as _ <-. apply repeat_spec in Hp. subst. simpl. lia. }
+    rewrite testbit_cat_of by (auto; lia).
+    destruct (i <? ewidth e) eqn:E.
+    + rewrite Z.mod_small by lia. reflexivity.
+    + rewrite IH by lia. f_equal.
+      replace i with ((i - ewidth e) + 1 * ewidth e) at 2 by lia. rewrite Z.mod_add by lia. reflexivity.
+Qed.
